@@ -202,9 +202,13 @@ StoreJ == << SPD(<<106, 49>>, J1), SPD(<<106, 50>>, J2), SPD(<<106, 51>>, J3), S
 JV == Call1("json", AVal)
 JsonExprs == { JV, AIdx(JV, AStr(a)), AIdx(JV, AStr(bb)), AIdx(JV, AStr(<<108>>)), AIdx(AIdx(JV, AStr(<<108>>)), AInt(1)), AIdx(AIdx(JV, AStr(<<108>>)), AInt(0)),
                AIdx(AIdx(JV, AStr(<<111>>)), AStr(<<112>>)), AIdx(AIdx(AIdx(JV, AStr(<<111>>)), AStr(<<112>>)), AStr(<<122>>)), AIdx(JV, AStr(<<111>>)),
-               AIdx(AIdx(AIdx(JV, AStr(<<108>>)), AInt(1)), AStr(a)) }
+               AIdx(AIdx(AIdx(JV, AStr(<<108>>)), AInt(1)), AStr(a)),
+               \* len counts the elements of ANY list value: one that comes out of a document too (judged per key: not every document has the member)
+               Call1("len", AIdx(JV, AStr(<<108>>))) }
 JsonTypeExprs == { Call1("is_int", AIdx(JV, AStr(a))), Call1("is_float", AIdx(JV, AStr(a))), Call1("is_int", AIdx(JV, AStr(bb))), Call1("is_float", AIdx(JV, AStr(<<108>>))),
-                   Call1("str", AIdx(JV, AStr(a))), Call1("strlen", AIdx(JV, AStr(bb))) }
+                   Call1("str", AIdx(JV, AStr(a))), Call1("strlen", AIdx(JV, AStr(bb))),
+                   \* the length of a list that comes out of a document
+                   Call1("len", AIdx(JV, AStr(<<108>>))), ABin("+", Call1("len", AIdx(JV, AStr(<<108>>))), AInt(1)) }
 JKeys == {<<106, 53, 53>>, <<106, 53, 54>>, <<106, 53, 55>>, <<106, 53, 56>>, <<106, 53, 57>>, <<106, 49>>, <<106, 50>>, <<106, 51>>, <<106, 52>>, <<106, 53>>, <<106, 54>>, <<106, 55>>, <<106, 56>>, <<106, 57>>}
 C10Json == { [st |-> Select(<<F(AKey, ""), F(e, "")>>, ABin("^=", AKey, AStr(<<106>>)), <<>>, <<>>, NoLim), sid |-> "J"] : e \in JsonExprs \cup JsonTypeExprs }
            \cup { [st |-> Select(<<F(AKey, ""), F(e, "")>>, ABin("=", AKey, AStr(k)), <<>>, <<>>, NoLim), sid |-> "J"] : e \in JsonExprs, k \in JKeys }
@@ -224,6 +228,8 @@ StoreB == << SP(<<57,48,48,55,49,57,57,50,53,52,55,52,48,57,57,51>>, <<55>>), SP
              SP(abc, <<45,57,48,48,55,49,57,57,50,53,52,55,52,48,57,57,51>>), SP(bb, <<52,50>>),
              \* the ends of the int64 range: further apart than any difference can express
              SP(c1, <<57,50,50,51,51,55,50,48,51,54,56,53,52,55,55,53,56,48,55>>), SP(c2, <<45,57,50,50,51,51,55,50,48,51,54,56,53,52,55,55,53,56,48,55>>), SP(dd, <<45,53>>) >>
+N99x(d) == <<57,48,48,55,49,57,57,50,53,52,55,52,48,57,57>> \o <<d>>
+StoreBG == << SP(a, N99x(51)), SP(ab, N99x(50)), SP(abc, N99x(52)), SP(bb, N99x(51)), SP(c1, <<52,50>>), SP(c2, N99x(50)) >>
 BigExprs == { Call1("int", AVal), Call1("str", Call1("int", AVal)), Call1("int", AKey) , Call1("int", Call1("upper", AVal)), Call1("int", AStr(<<57,48,48,55,49,57,57,50,53,52,55,52,48,57,57,51>>)),
               Call1("is_int", AVal), ABin("=", Call1("str", Call1("int", AVal)), AVal), AIdx(ACall("int_list", <<AVal, AInt(1)>>), AInt(0)) }
 C10Big == { [st |-> Select(<<F(AKey, ""), F(e, "")>>, ABin("!=", AKey, AStr(<<122>>)), <<>>, <<>>, NoLim), sid |-> "B"] : e \in BigExprs }
@@ -253,7 +259,10 @@ RowNum == { Call1("int", AVal), Call1("float", AVal), Call1("strlen", AKey) }
 Reassoc == { ABin(op2, ABin(op1, x, y), z) : op1 \in Ar, op2 \in Ar, x \in RowNum, y \in KSmall, z \in KSmall }
            \cup { ABin(op2, ABin(op1, y, x), z) : op1 \in {"+", "*"}, op2 \in {"+", "*"}, x \in RowNum, y \in KSmall, z \in KSmall }
            \cup { ABin(op, ABin(op, ABin(op, x, y), z), y) : op \in {"+", "*"}, x \in RowNum, y \in KSmall, z \in KSmall }
-KStr == { ABin("+", ABin("+", AStr(a), AKey), AStr(bb)), ABin("+", AStr(a), ABin("+", AKey, AStr(bb))), ABin("+", ABin("+", AStr(<<60>>), AVal), AStr(<<62>>)),
+KStr == { \* text chains with three and four trailing constants (text + is not commutative: the order must survive re-association)
+          ABin("+", ABin("+", ABin("+", AKey, AStr(a)), AStr(bb)), AStr(c1)), ABin("+", ABin("+", AKey, ABin("+", AStr(a), AStr(bb))), AStr(c1)),
+          ABin("+", ABin("+", ABin("+", ABin("+", AVal, AStr(a)), AStr(bb)), AStr(c1)), AStr(dd)), ABin("=", ABin("+", ABin("+", ABin("+", AKey, AStr(a)), AStr(bb)), AStr(c1)), AStr(<<97, 97, 98, 99, 49>>)),
+          ABin("+", ABin("+", AStr(a), AKey), AStr(bb)), ABin("+", AStr(a), ABin("+", AKey, AStr(bb))), ABin("+", ABin("+", AStr(<<60>>), AVal), AStr(<<62>>)),
           ABin("+", AStr(a), AStr(bb)), ABin("+", ABin("+", AKey, AStr(a)), AStr(bb)), ABin("+", AStr(a), ABin("+", AStr(bb), AKey)), Call1("upper", ABin("+", AStr(a), AStr(bb))),
           Call1("strlen", AStr(abc)), ABin("+", Call1("strlen", AStr(abc)), Call1("int", AVal)), Call1("str", ABin("+", AInt(1), AInt(2))), Call1("int", AStr(<<52, 50>>)),
           Call1("float", AStr(<<49, 46, 53>>)), ABin("*", Call1("float", AStr(<<49, 46, 53>>)), AInt(2)), Call1("lower", Call1("upper", AStr(a))),
@@ -364,7 +373,12 @@ C07Names == { [st |-> Select(<<F(AKey, "id"), F(AVal, "ID"), F(Call1("strlen", A
 \* an order key that is built on another select field's name (text and number)
 C07OnNames == { [st |-> Select(<<F(AKey, ""), F(AVal, "v"), F(ABin("+", AName("v"), AStr(<<120>>)), "w"), F(ABin("*", Call1("strlen", AName("v")), AInt(2)), "d")>>, ABin("!=", AVal, AStr(<<120>>)), ov, <<>>, NoLim), sid |-> "O"] :
                   ov \in { <<O(3, FALSE)>>, <<O(3, TRUE)>>, <<O(4, TRUE), O(3, FALSE)>>, <<O(3, TRUE), O(1, FALSE)>> } }
-C07Cases == C07OnNames \cup C07Ties \cup C07Names \cup C07Plain \cup C07Aggr \cup C07Mixed \cup C07Pt \cup C07BoolKey \cup C07Big
+\* GROUP BY + ORDER BY on an integer key beyond 2^53 (neighbouring values must not collapse)
+C07BigGroup == { [st |-> Select(<<F(Call1("int", AVal), "n"), F(Call1("count", AInt(1)), "c")>>, ABin("!=", AKey, AStr(<<122>>)), ov, <<1>>, NoLim), sid |-> "BG"] : ov \in { <<O(1, FALSE)>>, <<O(1, TRUE)>>, <<O(2, TRUE), O(1, FALSE)>> } }
+\* an order key that fails on one pair (the last scanned, division by zero): the statement fails, in either mode, whatever was sorted so far
+C07Err == { [st |-> Select(<<F(AKey, ""), F(ABin("/", AInt(100), IV), "q")>>, w, ov, <<>>, NoLim), sid |-> "I"] :
+              w \in {All, ABin("!=", AKey, AStr(a)), ABin("!=", AKey, AStr(dd))}, ov \in { <<O(2, FALSE)>>, <<O(1, TRUE)>>, <<O(2, TRUE), O(1, FALSE)>> } }
+C07Cases == C07Err \cup C07BigGroup \cup C07OnNames \cup C07Ties \cup C07Names \cup C07Plain \cup C07Aggr \cup C07Mixed \cup C07Pt \cup C07BoolKey \cup C07Big
 
 -----------------------------------------------------------------------------
 (* c09: GROUP BY and aggregates *)
@@ -457,7 +471,16 @@ C05Stmts == {
   Select(<<F(AKey, ""), NV>>, ABin("&", ABin("^=", AKey, AStr(a)), ABin(">", AName("n"), AInt(1))), <<>>, <<>>, NoLim),
   Select(<<F(AKey, ""), NV>>, ABin("&", AIn(AKey, <<AStr(a), AStr(abc), AStr(c1), AStr(dd)>>), ABin(">", AName("n"), AInt(1))), <<>>, <<>>, NoLim),
   Select(<<F(AKey, ""), NV>>, ABin("&", ABin(">", AKey, AStr(a)), ABin("!=", AName("n"), AInt(3))), <<>>, <<>>, NoLim),
-  Select(<<F(AKey, ""), NV, UV>>, ABin("&", ABin(">", AName("n"), AInt(0)), ABin("!=", AName("u"), AStr(<<55>>))), <<>>, <<>>, Lim(1, 4))
+  Select(<<F(AKey, ""), NV, UV>>, ABin("&", ABin(">", AName("n"), AInt(0)), ABin("!=", AName("u"), AStr(<<55>>))), <<>>, <<>>, Lim(1, 4)),
+  \* a text field built on another field's name as the ORDER BY key (its type is known only after the name is resolved)
+  Select(<<F(AKey, ""), F(AVal, "v"), F(ABin("+", AName("v"), AStr(<<45, 120>>)), "w")>>, ABin("!=", AName("v"), AStr(<<120>>)), <<O(3, FALSE)>>, <<>>, NoLim),
+  Select(<<F(AKey, ""), F(AVal, "v"), F(ABin("+", AName("v"), AStr(<<45, 120>>)), "w")>>, ABin("!=", AName("v"), AStr(<<120>>)), <<O(3, TRUE), O(1, FALSE)>>, <<>>, NoLim),
+  \* two different extensions of one named text (each must keep its own bytes: no shared buffer behind the name)
+  Select(<<F(ABin("+", AKey, AStr(<<95>>)), "a"), F(ABin("+", AName("a"), AStr(<<120>>)), "b"), F(ABin("+", AName("a"), AStr(<<121>>)), "c")>>, ABin("!=", AKey, AStr(ab)), <<>>, <<>>, NoLim),
+  Select(<<F(AKey, ""), F(Call1("upper", AVal), "a"), F(ABin("+", AName("a"), AStr(<<120, 120>>)), "b"), F(ABin("+", AName("a"), AStr(<<121>>)), "c"), F(ABin("+", AName("b"), AName("c")), "d")>>, ABin("!=", AName("a"), AStr(<<55>>)), <<>>, <<>>, NoLim),
+  \* a named list field as the right operand of IN, numeric and text
+  Select(<<F(AKey, ""), F(ACall("int_list", <<Call1("strlen", AKey), AInt(2)>>), "l"), NV>>, ABin("in", AName("n"), AName("l")), <<>>, <<>>, NoLim),
+  Select(<<F(AKey, ""), F(ACall("list", <<Call1("upper", AKey), AStr(<<49>>)>>), "l"), F(AVal, "v")>>, ABin("in", AName("v"), AName("l")), <<>>, <<>>, NoLim)
 }
 KA == AName("k")
 \* a select field that is nothing but the name of another one; two fields under one name (the name means the first)
@@ -504,14 +527,17 @@ C05KCases == UNION { C05KFor(n) : n \in 1..(IF Scale >= 2 THEN 5 ELSE 4) }
 \* values that are plain patterns for some of the keys (row-dependent regular expressions, prefixes, list items)
 StoreR == << SP(a, <<120>>), SP(ab, bb), SP(bb, bb), SP(<<99>>, a), SP(<<99, 97>>, <<99>>), SP(dd, <<122, 122>>), SP(<<100, 97>>, <<94, 100>>), SP(<<101>>, <<101, 36>>) >>
 StoreOf(sid) == CASE sid = "R" -> StoreR [] sid = "T" -> StoreT [] sid = "I" -> StoreI [] sid = "F" -> StoreF [] sid = "E" -> <<>>
-                  [] sid = "J" -> StoreJ [] sid = "O" -> StoreO [] sid = "M" -> StoreM [] sid = "G" -> StoreG [] sid = "Z" -> StoreZ [] sid = "X" -> StoreX [] sid = "BA" -> StoreBA [] sid = "B" -> StoreB [] sid = "V" -> StoreV [] sid = "S40" -> SeqStore(40) [] sid = "S7" -> SeqStore(7) [] sid \in {"K" \o ToString(n) : n \in 1..5} -> StoreK(CHOOSE n \in 1..5 : "K" \o ToString(n) = sid) [] sid \in {SizeId(n) : n \in 0..100} -> SeqStore(CHOOSE n \in 0..100 : SizeId(n) = sid) [] OTHER -> <<>>
-StoreIds == {"T", "I", "F", "E", "J", "V", "O", "G", "M", "Z", "B", "X", "BA", "R", "S40", "S7"} \cup {SizeId(n) : n \in SizesSmall \cup SizesBig} \cup {"K" \o ToString(n) : n \in 1..5}
+                  [] sid = "J" -> StoreJ [] sid = "O" -> StoreO [] sid = "M" -> StoreM [] sid = "G" -> StoreG [] sid = "Z" -> StoreZ [] sid = "X" -> StoreX [] sid = "BA" -> StoreBA [] sid = "BG" -> StoreBG [] sid = "B" -> StoreB [] sid = "V" -> StoreV [] sid = "S40" -> SeqStore(40) [] sid = "S7" -> SeqStore(7) [] sid \in {"K" \o ToString(n) : n \in 1..5} -> StoreK(CHOOSE n \in 1..5 : "K" \o ToString(n) = sid) [] sid \in {SizeId(n) : n \in 0..100} -> SeqStore(CHOOSE n \in 0..100 : SizeId(n) = sid) [] OTHER -> <<>>
+StoreIds == {"T", "I", "F", "E", "J", "V", "O", "G", "M", "Z", "B", "X", "BA", "BG", "R", "S40", "S7"} \cup {SizeId(n) : n \in SizesSmall \cup SizesBig} \cup {"K" \o ToString(n) : n \in 1..5}
 
 \* c15x: statements whose optimised filter, as EXPLAIN prints it, can be written back in the language (no negative number,
 \* no bare Boolean operand): it must be accepted again and select the same rows
 C15XCases == { [st |-> Select(<<>>, w, <<>>, <<>>, NoLim), sid |-> "I"] :
                  w \in NumChains \cup { ABin(op, x, y) : op \in {"&", "or"}, x \in NumChains, y \in {ABin("^=", AKey, AStr(a)), ABin(">", ABin("+", IV, AInt(1)), ABin("*", AInt(1), AInt(2)))} }
-                      \cup { ABin("=", ABin(o2, ABin(o1, IV, AInt(5)), AInt(2)), AInt(n)) : o1 \in {"+", "-", "*"}, o2 \in {"+", "-", "*"}, n \in {0, 3, 10} } }
+                      \cup { ABin("=", ABin(o2, ABin(o1, IV, AInt(5)), AInt(2)), AInt(n)) : o1 \in {"+", "-", "*"}, o2 \in {"+", "-", "*"}, n \in {0, 3, 10} }
+                      \* a constant comparison beside a real condition, under the symbols and under the words, on either side
+                      \cup { ABin(op, x, c) : op \in {"&", "|", "and", "or"}, x \in {ABin("^=", AKey, AStr(a)), ABin(">", IV, AInt(2))}, c \in {ABin("=", AInt(1), AInt(1)), ABin("=", AInt(1), AInt(2))} }
+                      \cup { ABin(op, c, x) : op \in {"&", "|", "and", "or"}, x \in {ABin("^=", AKey, AStr(a)), ABin(">", IV, AInt(2))}, c \in {ABin("=", AInt(1), AInt(1)), ABin("=", AInt(1), AInt(2))} } }
 Cases == CASE Mode = "c15x" -> C15XCases [] Mode = "c01" -> C01Cases [] Mode = "pt" -> PtCases [] Mode = "c10" -> C10Cases [] Mode = "c04" -> C04Cases [] Mode = "c08" -> C08Select [] Mode = "c08d" -> C08Delete [] Mode = "c07" -> C07Cases [] Mode = "c09" -> C09Cases [] Mode = "c05" -> C05Cases [] Mode = "c05k" -> C05KCases [] OTHER -> {}
 
 \* enumeration is split so that TLC's workers share it: Init picks a partition, Next a case of it
